@@ -11,8 +11,9 @@ Every boolean fact is derived from OBSERVED BEHAVIOUR of flow/record/base.py on 
   different types hash, that dict key order does not matter;
 * Record._pack(excluded_fields=...) leaves exactly the excluded slots out, keeping the order;
 * GroupedRecord._pack accepts excluded_fields and returns (name, tuple of the members' _pack with the same arguments);
-* ignore_fields_for_comparison puts the previous configuration back on a normal exit, on an exit by exception, nested,
-  with an empty and a non-empty prior configuration;
+* ignore_fields_for_comparison puts the previous configuration back however the block ends: normally, with an Exception,
+  KeyboardInterrupt, SystemExit, by closing / collecting a suspended generator that holds the scope, by return / break /
+  continue; alone and nested (the outer override is back), with an empty and a non-empty prior configuration;
 * which classes define __eq__/__ne__/__hash__, RESERVED_FIELDS, the environment variable (observed in a fresh
   interpreter when the source spelling is not recognised).
 
@@ -764,35 +765,8 @@ def observe(base):
                             and (A == B) is False and (A != B) is True)
         obs["descs_same"] = (A == A2) is True and (A != A2) is False and (ra == A2("v", "w", _generated=T0)) is True \
             and (A == RecordDescriptor("vf/col", [("string", "a")])) is False and (A == RecordDescriptor("vf/colx", [("string", "a"), ("string", "bstringc")])) is False
-        # ---------------- the scoped override
-        fin_normal = fin_exc = True
-        for prior in (set(), {"vf_prior", "a"}):
-            base.set_ignored_fields_for_comparison(set(prior))
-            before = base.IGNORE_FIELDS_FOR_COMPARISON
-            with base.ignore_fields_for_comparison(["vf_in"]):
-                inside = set(base.IGNORE_FIELDS_FOR_COMPARISON)
-            if inside != {"vf_in"}:
-                raise Unsupported("probe: inside the scope the ignore set is %r" % (inside,))
-            if set(base.IGNORE_FIELDS_FOR_COMPARISON) != prior or set(before) != prior:
-                fin_normal = False
-            base.set_ignored_fields_for_comparison(set(prior))
-            try:
-                with base.ignore_fields_for_comparison(["vf_outer"]):
-                    try:
-                        with base.ignore_fields_for_comparison(("vf_in",)):
-                            raise KeyError("probe")
-                    except KeyError:
-                        pass
-                    if set(base.IGNORE_FIELDS_FOR_COMPARISON) != {"vf_outer"}:
-                        fin_exc = False
-                    raise KeyError("probe")
-            except KeyError:
-                pass
-            if set(base.IGNORE_FIELDS_FOR_COMPARISON) != prior:
-                fin_exc = False
-        if not fin_normal:
-            raise Unsupported("probe: the ignore set is not put back even on a normal exit of the scope")
-        obs["finally"] = fin_exc
+        # ---------------- the scoped override: every way a `with` block can end
+        obs["scope"] = observe_scope(base)
         return obs
     finally:
         if orig_rpack is not None:
@@ -806,6 +780,86 @@ def observe(base):
         elif "hash" in base.__dict__:
             del base.__dict__["hash"]
         base.IGNORE_FIELDS_FOR_COMPARISON = saved_ignore
+
+
+SCOPE_KINDS = ["normal", "exception", "keyboard-interrupt", "system-exit", "generator-close", "generator-collected",
+               "return", "break", "continue"]
+
+
+def end_scope(base, arg, kind, inner=lambda: None, collect=True):
+    """open `with ignore_fields_for_comparison(arg)`, run inner() inside, and end the block in the given way"""
+    import gc
+    cm = base.ignore_fields_for_comparison
+    box = []
+    if kind == "normal":
+        with cm(arg):
+            box.append(inner())
+    elif kind in ("exception", "keyboard-interrupt", "system-exit"):
+        exc = {"exception": KeyError, "keyboard-interrupt": KeyboardInterrupt, "system-exit": SystemExit}[kind]
+        try:
+            with cm(arg):
+                box.append(inner())
+                raise exc("vf probe")
+        except exc:
+            pass
+    elif kind in ("generator-close", "generator-collected"):
+        def gen():
+            with cm(arg):
+                box.append(inner())
+                yield 1
+                yield 2
+        it = gen()
+        next(it)
+        if kind == "generator-close":
+            it.close()
+        else:
+            del it              # CPython finalises the suspended generator at once; gc.collect() for good measure
+            if collect:
+                gc.collect()
+    elif kind == "return":
+        def f():
+            with cm(arg):
+                box.append(inner())
+                return 1
+            return 2
+        f()
+    elif kind in ("break", "continue"):
+        for _ in range(1):
+            with cm(arg):
+                box.append(inner())
+                if kind == "break":
+                    break
+                continue
+    else:
+        raise ValueError(kind)
+    return box[0] if box else None
+
+
+def observe_scope(base):
+    """kind -> the previous configuration is back afterwards (empty and non-empty prior; alone and as the inner of two
+    nested scopes, where the OUTER override has to be back)"""
+    res = {}
+    for kind in SCOPE_KINDS:
+        ok = True
+        for prior in (set(), {"vf_prior", "a"}):
+            base.set_ignored_fields_for_comparison(set(prior))
+            seen = end_scope(base, ["vf_in"], kind, lambda: set(base.IGNORE_FIELDS_FOR_COMPARISON))
+            if seen != {"vf_in"}:
+                raise Unsupported("probe: inside the scope the ignore set is %r" % (seen,))
+            if set(base.IGNORE_FIELDS_FOR_COMPARISON) != prior:
+                ok = False
+            base.set_ignored_fields_for_comparison(set(prior))
+            with base.ignore_fields_for_comparison(["vf_outer"]):
+                end_scope(base, ("vf_in",), kind)
+                if set(base.IGNORE_FIELDS_FOR_COMPARISON) != {"vf_outer"}:
+                    ok = False
+                base.set_ignored_fields_for_comparison(["vf_outer"])
+            if kind == "normal" and set(base.IGNORE_FIELDS_FOR_COMPARISON) != prior:
+                ok = False
+        res[kind] = ok
+    if not res["normal"]:
+        raise Unsupported("probe: the ignore set is not put back even on a normal exit of the scope")
+    return res
 
 
 def _strip_records(v):
@@ -900,7 +954,22 @@ def gen_equality():
     h_unordered = _reconcile("__hash__ dict -> frozenset", obs["hash_unordered"], hash_part(2), notes)
     g_acc = _reconcile("GroupedRecord._pack accepts excluded_fields", obs["grp_accepts"], grp_part(0), notes)
     g_fwd = _reconcile("GroupedRecord._pack forwards excluded_fields", obs["grp_forwards"], grp_part(1), notes)
-    fin = _reconcile("scope restored on exceptional exit", obs["finally"], lambda: ctx_facts(base), notes)
+    sc = obs["scope"]
+    c_exc = sc["exception"]
+    c_base = sc["keyboard-interrupt"] and sc["system-exit"]
+    c_gen = sc["generator-close"] and sc["generator-collected"]
+    c_ctl = sc["return"] and sc["break"] and sc["continue"]
+    try:
+        in_finally = ctx_facts(base)
+        if in_finally and not (c_exc and c_base and c_gen and c_ctl):
+            raise Unsupported("scope: the source restores in a `finally` but the probes observe %r" % (sc,))
+        if not in_finally and c_exc:
+            raise Unsupported("scope: the source restores outside a `finally` but an Exception exit is observed to restore")
+    except Unsupported as e:
+        if str(e).startswith("scope:"):
+            raise
+        notes.append("scope restoration: source shape not recognised (%s); observed behaviour used: %s" % (
+            e, ", ".join("%s=%s" % kv for kv in sorted(sc.items()))))
     ne_default, hashable = special_methods(base)
     if obs["hash_raised"] and "unhashable type: '" in obs["hash_raised"] and "Record" in obs["hash_raised"]:
         hashable = False
@@ -921,8 +990,9 @@ def gen_equality():
         cbool(eq_l), cbool(eq_r), cbool(guard), cbool(eq_descs), cbool(ne_default))
     out += "  f_hash_ign := %s; f_hash_deep := %s; f_hash_dict_unordered := %s; f_skip_before_append := %s;\n" % (
         cbool(h_ign), cbool(h_deep), cbool(h_unordered), cbool(skip_first))
-    out += "  f_grp_accepts := %s; f_grp_forwards := %s; f_ctx_finally := %s; f_hashable_defined := %s;\n" % (
-        cbool(g_acc), cbool(g_fwd), cbool(fin), cbool(hashable))
+    out += "  f_grp_accepts := %s; f_grp_forwards := %s; f_hashable_defined := %s;\n" % (cbool(g_acc), cbool(g_fwd), cbool(hashable))
+    out += "  f_ctx_exception := %s; f_ctx_base_exception := %s; f_ctx_generator_exit := %s; f_ctx_control := %s;\n" % (
+        cbool(c_exc), cbool(c_base), cbool(c_gen), cbool(c_ctl))
     out += "  f_reserved := %s |}.\n\n" % clist([cstr(n) for n in reserved])
     out += "Definition hash_freezes_deep : bool := %s.\n" % cbool(h_deep)
     out += "Definition ignore_env_var : string := %s.\n" % cstr(envname)
